@@ -694,3 +694,26 @@ def adjust_date_same_timezone(oi: int, implicit: bool) -> bool:
 
 
 T_ADJ1 = parse_all({'x': 'adjust-date-to-timezone($d)'})['x']
+
+
+# --- added after round-3 seeded changes: differences across the limits of Python's datetime range (year 9999/10000 and 1 BCE / 1 CE) --------
+
+_EDGE_YEARS = (9998, 9999, 10000, 10001, 1, 2, -1, -2)
+
+
+@ob(budget=300, bound='two xs:dateTime values with years from {9998, 9999, 10000, 10001, 1, 2, -1, -2} (XSD 1.1 numbering: -1 is 2 BCE), month in '
+                      '{1, 12}, day of the first in {1, 28} (all chosen by the solver, values concrete on each path; second day 28, first hour 23): a - b is '
+                      'the elapsed time on the proleptic Gregorian timeline',
+    funcs=[D + ':AbstractDateTime._operation', D + ':AbstractDateTime.todelta', D + ':DayTimeDuration.fromtimedelta'])
+def difference_across_datetime_limits(i1: int, i2: int, ma: bool, da: bool, mb: bool) -> bool:
+    """
+    pre: 0 <= i1 <= 7 and 0 <= i2 <= 7
+    post: _
+    """
+    y1 = _EDGE_YEARS[[k for k in range(8) if k == i1][0]]
+    y2 = _EDGE_YEARS[[k for k in range(8) if k == i2][0]]
+    m1, d1, m2, d2, h1 = (12 if ma else 1), (28 if da else 1), (12 if mb else 1), 28, 23
+    a = DateTime(y1, m1, d1, h1)
+    b = DateTime(y2, m2, d2)
+    want = (civil_days(_astro(y1), m1, d1) - civil_days(_astro(y2), m2, d2)) * 86400 + h1 * 3600
+    return (a - b).seconds == want      # adding the difference back goes through CrossHair's datetime model of fromdelta (see fromdelta_vs_civil)
